@@ -3,7 +3,10 @@
     consistent; a sweep that returns the coefficient matrix it was given certifies the group (row)
     first-order conditions and hence global optimality.  Matrices are lists of rows: Y, R are n x t
     (samples x tasks), W is p x t (features x tasks), the design is given by its p columns.
-    As in C11/Descent.v the tolerance of approx::abs_diff_eq is the argument [e] of [RXe e]. *)
+    As in C11/Descent.v the tolerance of approx::abs_diff_eq (column-skipping test) is the argument [e] of
+    [RXe e], and the sweep proofs are generic in the test [nz] that guards the rank-one residual updates:
+    `norm != 0` in the code as it is ([bcd_sweep]: all inputs, every e >= 0), `abs_diff_ne!(norm, 0)` in
+    the code before the repair of finding F52 ([bcd_sweep_absdiff]: only outside the band (0, e]). *)
 From Coq Require Import List ZArith NArith Reals Lra Lia Psatz Bool.
 From LinfaVerif Require Import Common.Num Common.NdSum Common.QF Common.Convex C11.Model C11.Proofs C11.Descent C11.OlsGap.
 Import ListNotations.
@@ -372,6 +375,24 @@ Proof.
   - apply rank1_minus_R.
 Qed.
 
+(** ... and with the exact test `norm != 0` for every row *)
+Lemma norm_zero_sq w : norm w = 0 -> sq w = 0.
+Proof. intros Z. rewrite <- (norm_sq w), Z. ring. Qed.
+Lemma exact_plus n t M x w : mshape n t M -> length x = n -> length w = t ->
+  (if nonzero R_ops (norm2 R_ops w) return (list (list R)) then rank1 R_ops true M x w else M) = radd M x w.
+Proof.
+  intros HM Lx Lw. rewrite norm2_R, nonzero_R. destruct (Reqb (norm w) 0) eqn:E; simpl.
+  - apply Reqb_true in E. symmetry. eapply radd_zero; eauto. now apply norm_zero_sq.
+  - apply rank1_plus_R.
+Qed.
+Lemma exact_minus n t M x w : mshape n t M -> length x = n -> length w = t ->
+  (if nonzero R_ops (norm2 R_ops w) return (list (list R)) then rank1 R_ops false M x w else M) = radd M x (vopp w).
+Proof.
+  intros HM Lx Lw. rewrite norm2_R, nonzero_R. destruct (Reqb (norm w) 0) eqn:E; simpl.
+  - apply Reqb_true in E. symmetry. eapply radd_zero; eauto; [now rewrite vopp_length | rewrite sq_vopp; now apply norm_zero_sq].
+  - apply rank1_minus_R.
+Qed.
+
 Lemma new_w_R l1r pen nF nj tmp :
   map (fun v => div R_ops v (add R_ops nj (mul R_ops (mul R_ops nF (sub R_ops (one R_ops) l1r)) pen)))
       (block_soft_thresholding R_ops tmp (mul R_ops (mul R_ops nF l1r) pen))
@@ -394,8 +415,15 @@ Let l2 := nF * (1 - l1r) * pen.
 Hypothesis H1 : 0 <= l1.
 Hypothesis H2 : 0 <= l2.
 Hypothesis He : 0 <= e.
+(** the guard of the residual updates and the rows for which it behaves like `norm != 0` *)
+Variable nz : R -> bool.
+Variable good : list R -> Prop.
+Hypothesis Hp : forall n' t' M x w, good w -> mshape n' t' M -> length x = n' -> length w = t' ->
+  (if nz (norm2 R_ops w) return (list (list R)) then rank1 R_ops true M x w else M) = radd M x w.
+Hypothesis Hm : forall n' t' M x w, good w -> mshape n' t' M -> length x = n' -> length w = t' ->
+  (if nz (norm2 R_ops w) return (list (list R)) then rank1 R_ops false M x w else M) = radd M x (vopp w).
 
-Notation sweep := (bcd_sweep R_ops (RXe e) cc l1r pen nF t1).
+Notation sweep := (bcd_sweep_gen R_ops (RXe e) cc l1r pen nF t1 nz).
 
 (** n times the documented multi-task objective, rows of W penalised by their Euclidean norm *)
 Definition Mobj (cols Y W : list (list R)) : R := / 2 * fsq (mres cols Y W) + gpen l1 l2 W.
@@ -405,9 +433,9 @@ Proof. intros P E. subst x. unfold sq in P. simpl in P. lra. Qed.
 
 Lemma bsweep_spec : forall cols W Y wmax dwmax W2 R2 m,
   mshape n t Y -> Forall (fun c => length c = n) cols -> length W = length cols ->
-  Forall (fun w => length w = t) W -> rband_free e W ->
+  Forall (fun w => length w = t) W -> Forall good W ->
   sweep cols (map (fun c => sq c) cols) W (mres cols Y W) wmax dwmax = (W2, (R2, m)) ->
-  rband_free e W2 ->
+  Forall good W2 ->
   length W2 = length cols /\ Forall (fun w => length w = t) W2 /\ R2 = mres cols Y W2 /\ Mobj cols Y W2 <= Mobj cols Y W.
 Proof.
   induction cols as [|xj cols IH]; intros W Y wmax dwmax W2 R2 m HY HC LW FW BW E BW2.
@@ -415,7 +443,7 @@ Proof.
   - destruct W as [|wj W]; try discriminate. simpl in LW.
     inversion HC as [|? ? Lx HC']; subst. inversion FW as [|? ? Lwj FW']; subst.
     inversion BW as [|? ? Bj BW']; subst.
-    cbn [map bcd_sweep] in E.
+    cbn [map bcd_sweep_gen] in E.
     assert (HY' : mshape (length xj) (length wj) (radd Y xj (vopp wj))) by (apply radd_shape; auto; now rewrite vopp_length).
     destruct (abs_diff_eq R_ops (RXe e) (sq xj) (zero R_ops)) eqn:Sk.
     + (* skipped column *)
@@ -432,7 +460,7 @@ Proof.
       cbn [mres] in E.
       set (R0 := mres cols (radd Y xj (vopp wj)) W) in *.
       assert (HR0 : mshape (length xj) (length wj) R0) by (apply mres_shape; auto).
-      unfold vec in E. rewrite (guarded_plus e _ _ R0 xj wj He Bj HR0 eq_refl eq_refl) in E.
+      unfold vec in E. rewrite (Hp _ _ R0 xj wj Bj HR0 eq_refl eq_refl) in E.
       set (R1 := radd R0 xj wj) in *.
       assert (ER1 : R1 = mres cols Y W).
       { unfold R1, R0. rewrite <- (mres_radd (length xj) (length wj)); auto. f_equal. eapply radd_cancel; eauto. }
@@ -452,7 +480,7 @@ Proof.
         destruct (sweep cols a b c d f) as [W2' [R2' m']] eqn:E' end.
       inversion E; subst W2 R2' m'. clear E.
       inversion BW2 as [|? ? Bn BW2']; subst.
-      rewrite (guarded_minus e _ _ R1 xj wn He Bn HR1 eq_refl Lwn) in E'.
+      rewrite (Hm _ _ R1 xj wn Bn HR1 eq_refl Lwn) in E'.
       assert (ER2 : radd R1 xj (vopp wn) = mres cols (radd Y xj (vopp wn)) W).
       { rewrite ER1. symmetry. apply (mres_radd (length xj) (length wj)); auto. now rewrite vopp_length. }
       rewrite ER2 in E'.
@@ -511,13 +539,20 @@ Let l2 := nF * (1 - l1r) * pen.
 Hypothesis H1 : 0 <= l1.
 Hypothesis H2 : 0 <= l2.
 Hypothesis He : 0 <= e.
+(** the guard of the residual updates and the rows for which it behaves like `norm != 0` *)
+Variable nz : R -> bool.
+Variable good : list R -> Prop.
+Hypothesis Hp : forall n' t' M x w, good w -> mshape n' t' M -> length x = n' -> length w = t' ->
+  (if nz (norm2 R_ops w) return (list (list R)) then rank1 R_ops true M x w else M) = radd M x w.
+Hypothesis Hm : forall n' t' M x w, good w -> mshape n' t' M -> length x = n' -> length w = t' ->
+  (if nz (norm2 R_ops w) return (list (list R)) then rank1 R_ops false M x w else M) = radd M x (vopp w).
 
-Notation sweep := (bcd_sweep R_ops (RXe e) cc l1r pen nF t1).
+Notation sweep := (bcd_sweep_gen R_ops (RXe e) cc l1r pen nF t1 nz).
 
 Lemma bsweep_fixed : forall cols W R wmax dwmax W2 R2 m,
   mshape n t R -> Forall (fun c => length c = n) cols ->
   Forall2 (fun c w => length w = t /\ (sq c <= e -> sq c = 0 /\ sq w = 0)) cols W ->
-  rband_free e W ->
+  Forall good W ->
   sweep cols (map (fun c => sq c) cols) W R wmax dwmax = (W2, (R2, m)) ->
   W2 = W ->
   R2 = R /\ Forall2 (fun c w => group_cond (xtr t c R) l1 l2 w 0) cols W.
@@ -526,7 +561,7 @@ Proof.
   - inversion HS; subst. simpl in E. inversion E; subst. split; auto.
   - inversion HS as [|? wj ? W' [Lwj Sj] HS']; subst. rename W' into W.
     inversion HC as [|? ? Lx HC']; subst. inversion BW as [|? ? Bj BW']; subst.
-    cbn [map bcd_sweep] in E. unfold vec in E.
+    cbn [map bcd_sweep_gen] in E. unfold vec in E.
     destruct (abs_diff_eq R_ops (RXe e) (sq xj) (zero R_ops)) eqn:Sk.
     + apply abs_diff_eq_true in Sk. simpl in Sk.
       pose proof (sq_nonneg xj) as Nn. rewrite Rabs_right in Sk by lra.
@@ -539,7 +574,7 @@ Proof.
       rewrite xtr_zero by (auto; apply HR). apply group_cond_zero; auto.
     + apply abs_diff_eq_false in Sk. simpl in Sk.
       assert (Pn : 0 < sq xj). { pose proof (sq_nonneg xj). rewrite Rabs_right in Sk; lra. }
-      rewrite (guarded_plus e _ _ R xj wj He Bj HR eq_refl eq_refl) in E.
+      rewrite (Hp _ _ R xj wj Bj HR eq_refl eq_refl) in E.
       set (R1 := radd R xj wj) in *.
       assert (HR1 : mshape (length xj) (length wj) R1) by (apply radd_shape; auto).
       assert (NE : R1 <> []).
@@ -555,7 +590,7 @@ Proof.
         destruct (sweep cols a b c d f) as [W2' [R2' m']] eqn:E' end.
       injection E as Ewn EW2 ER Em. subst W2' R2' m'.
       rewrite Ewn in E'.
-      rewrite (guarded_minus e _ _ R1 xj wj He Bj HR1 eq_refl eq_refl) in E'.
+      rewrite (Hm _ _ R1 xj wj Bj HR1 eq_refl eq_refl) in E'.
       unfold R1 in E'. rewrite (radd_cancel' (length xj) (length wj)) in E' by auto.
       destruct (IH W R _ _ W R2 m HR HC' HS' BW' E' eq_refl) as [A K].
       split; auto. constructor; auto.
@@ -845,39 +880,67 @@ Qed.
 (* ------------------------------------------------------------------------------------------- *)
 (** * the sweep theorems in the form quoted by PropertiesBlock.v *)
 
+Lemma Forall_True' {A} (l : list A) : Forall (fun _ => True) l.
+Proof. induction l; constructor; auto. Qed.
+
+(** the code as it is (exact test `norm != 0`): every input, every tolerance e >= 0 of the column-skipping test *)
 Lemma bcd_sweep_noninc cc t1 l1r pen nF e n t cols Y W wmax dwmax W2 R2 m :
   0 <= nF * l1r * pen -> 0 <= nF * (1 - l1r) * pen -> 0 <= e ->
   mshape n t Y -> Forall (fun c => length c = n) cols -> length W = length cols -> Forall (fun w => length w = t) W ->
   bcd_sweep R_ops (RXe e) cc l1r pen nF t1 cols (map (fun c => dot R_ops cc c c) cols) W (mres cols Y W) wmax dwmax
     = (W2, (R2, m)) ->
-  rband_free e W -> rband_free e W2 ->
   let P V := mobjective cols (trans t Y) (nF * l1r * pen) (nF * (1 - l1r) * pen) (trans t V) in
   length W2 = length cols /\ Forall (fun w => length w = t) W2 /\ R2 = mres cols Y W2 /\ P W2 <= P W.
 Proof.
-  intros H1 H2 He HY HC LW FW E BW BW2 P. rewrite norms_R in E.
-  destruct (bsweep_spec cc t1 l1r pen nF e n t H1 H2 He cols W Y wmax dwmax W2 R2 m HY HC LW FW BW E BW2)
+  intros H1 H2 He HY HC LW FW E P. rewrite norms_R in E. unfold bcd_sweep in E.
+  destruct (bsweep_spec cc t1 l1r pen nF e n t H1 H2 He (nonzero R_ops) (fun _ => True)
+              (fun n' t' M x w _ HM Lx Lw => exact_plus n' t' M x w HM Lx Lw)
+              (fun n' t' M x w _ HM Lx Lw => exact_minus n' t' M x w HM Lx Lw)
+              cols W Y wmax dwmax W2 R2 m HY HC LW FW (Forall_True' W) E (Forall_True' W2))
     as (A & B & C & D).
   repeat split; auto. unfold P. unfold Mobj in D.
   rewrite <- !(Mobj_tasks n t) by (auto; lia). exact D.
 Qed.
 
-Lemma bcd_sweep_noninc_exact cc t1 l1r pen nF n t cols Y W wmax dwmax W2 R2 m :
+(** ... in particular with the literal tolerance 2^-52 of the implementation *)
+Lemma bcd_sweep_noninc_literal cc t1 l1r pen nF n t cols Y W wmax dwmax W2 R2 m :
   0 <= nF * l1r * pen -> 0 <= nF * (1 - l1r) * pen ->
   mshape n t Y -> Forall (fun c => length c = n) cols -> length W = length cols -> Forall (fun w => length w = t) W ->
-  bcd_sweep R_ops (RXe 0) cc l1r pen nF t1 cols (map (fun c => dot R_ops cc c c) cols) W (mres cols Y W) wmax dwmax
+  bcd_sweep R_ops RX cc l1r pen nF t1 cols (map (fun c => dot R_ops cc c c) cols) W (mres cols Y W) wmax dwmax
     = (W2, (R2, m)) ->
   let P V := mobjective cols (trans t Y) (nF * l1r * pen) (nF * (1 - l1r) * pen) (trans t V) in
   length W2 = length cols /\ Forall (fun w => length w = t) W2 /\ R2 = mres cols Y W2 /\ P W2 <= P W.
 Proof.
-  intros H1 H2 HY HC LW FW E.
-  exact (bcd_sweep_noninc cc t1 l1r pen nF 0 n t cols Y W wmax dwmax W2 R2 m H1 H2 (Rle_refl 0) HY HC LW FW E
-           (rband_free_0 W) (rband_free_0 W2)).
+  intros H1 H2 HY HC LW FW E. change RX with (RXe eps64) in E.
+  assert (He : 0 <= eps64) by (unfold eps64; lra).
+  exact (bcd_sweep_noninc cc t1 l1r pen nF eps64 n t cols Y W wmax dwmax W2 R2 m H1 H2 He HY HC LW FW E).
+Qed.
+
+(** the code before the repair of F52 (test `abs_diff_ne!(norm, 0)`): only outside the band (0, e] *)
+Lemma bcd_sweep_absdiff_noninc cc t1 l1r pen nF e n t cols Y W wmax dwmax W2 R2 m :
+  0 <= nF * l1r * pen -> 0 <= nF * (1 - l1r) * pen -> 0 <= e ->
+  mshape n t Y -> Forall (fun c => length c = n) cols -> length W = length cols -> Forall (fun w => length w = t) W ->
+  bcd_sweep_absdiff R_ops (RXe e) cc l1r pen nF t1 cols (map (fun c => dot R_ops cc c c) cols) W (mres cols Y W) wmax dwmax
+    = (W2, (R2, m)) ->
+  rband_free e W -> rband_free e W2 ->
+  let P V := mobjective cols (trans t Y) (nF * l1r * pen) (nF * (1 - l1r) * pen) (trans t V) in
+  length W2 = length cols /\ Forall (fun w => length w = t) W2 /\ R2 = mres cols Y W2 /\ P W2 <= P W.
+Proof.
+  intros H1 H2 He HY HC LW FW E BW BW2 P. rewrite norms_R in E. unfold bcd_sweep_absdiff in E.
+  destruct (bsweep_spec cc t1 l1r pen nF e n t H1 H2 He (fun a => abs_diff_ne R_ops (RXe e) a 0)
+              (fun w => sq w = 0 \/ e < norm w)
+              (fun n' t' M x w B HM Lx Lw => guarded_plus e n' t' M x w He B HM Lx Lw)
+              (fun n' t' M x w B HM Lx Lw => guarded_minus e n' t' M x w He B HM Lx Lw)
+              cols W Y wmax dwmax W2 R2 m HY HC LW FW BW E BW2)
+    as (A & B & C & D).
+  repeat split; auto. unfold P. unfold Mobj in D.
+  rewrite <- !(Mobj_tasks n t) by (auto; lia). exact D.
 Qed.
 
 Lemma bcd_fixed_point_is_kkt cc t1 l1r pen nF e n t cols Y W wmax dwmax R2 m :
   0 <= nF * l1r * pen -> 0 <= nF * (1 - l1r) * pen -> 0 <= e ->
   mshape n t Y -> Forall (fun c => length c = n) cols ->
-  Forall2 (fun c w => length w = t /\ (sq c <= e -> sq c = 0 /\ sq w = 0)) cols W -> rband_free e W ->
+  Forall2 (fun c w => length w = t /\ (sq c <= e -> sq c = 0 /\ sq w = 0)) cols W ->
   bcd_sweep R_ops (RXe e) cc l1r pen nF t1 cols (map (fun c => dot R_ops cc c c) cols) W (mres cols Y W) wmax dwmax
     = (W, (R2, m)) ->
   let l1 := nF * l1r * pen in
@@ -886,12 +949,15 @@ Lemma bcd_fixed_point_is_kkt cc t1 l1r pen nF e n t cols Y W wmax dwmax R2 m :
   /\ forall W', length W' = length cols -> Forall (fun w => length w = t) W' ->
        mobjective cols (trans t Y) l1 l2 (trans t W') >= mobjective cols (trans t Y) l1 l2 (trans t W).
 Proof.
-  intros H1 H2 He HY HC HS BW E l1 l2. rewrite norms_R in E.
+  intros H1 H2 He HY HC HS E l1 l2. rewrite norms_R in E. unfold bcd_sweep in E.
   assert (LW : length W = length cols) by (symmetry; eapply F2_length; eauto).
   assert (FW : Forall (fun w => length w = t) W).
   { clear - HS. induction HS as [|c w cs ws [L _] _ IH]; constructor; auto. }
   assert (HR : mshape n t (mres cols Y W)) by (apply mres_shape; auto).
-  destruct (bsweep_fixed cc t1 l1r pen nF e n t H1 H2 He cols W _ wmax dwmax W R2 m HR HC HS BW E eq_refl) as [_ K].
+  destruct (bsweep_fixed cc t1 l1r pen nF e n t H1 H2 He (nonzero R_ops) (fun _ => True)
+              (fun n' t' M x w _ HM Lx Lw => exact_plus n' t' M x w HM Lx Lw)
+              (fun n' t' M x w _ HM Lx Lw => exact_minus n' t' M x w HM Lx Lw)
+              cols W _ wmax dwmax W R2 m HR HC HS (Forall_True' W) E eq_refl) as [_ K].
   split; [exact K|]. intros W' LW' FW'.
   rewrite <- !(Mobj_tasks n t) by (auto; lia).
   apply (group_rows_optimal n t); auto.
@@ -919,7 +985,7 @@ Lemma bcd_fixed_point_is_kkt_exact cc t1 l1r pen nF n t cols Y W wmax dwmax R2 m
 Proof.
   intros H1 H2 HY HC HS E.
   exact (bcd_fixed_point_is_kkt cc t1 l1r pen nF 0 n t cols Y W wmax dwmax R2 m H1 H2 (Rle_refl 0) HY HC
-           (zero_cols_rows_exact t cols W HS) (rband_free_0 W) E).
+           (zero_cols_rows_exact t cols W HS) E).
 Qed.
 
 (** the block update in the notation of the model: what `block_soft_thresholding(tmp, n l1_ratio penalty) /
@@ -937,27 +1003,33 @@ Qed.
 
 (** skipped columns keep their row: started from W = 0 (as block_coordinate_descent does), the rows of columns
     with |x_j|^2 <= e stay zero *)
-Lemma bcd_sweep_keeps_skipped cc t1 l1r pen nF e : forall cols W M wmax dwmax W2 R2 m,
+Lemma bcd_sweep_gen_keeps_skipped cc t1 l1r pen nF e nz : forall cols W M wmax dwmax W2 R2 m,
   length W = length cols ->
-  bcd_sweep R_ops (RXe e) cc l1r pen nF t1 cols (map (fun c => dot R_ops cc c c) cols) W M wmax dwmax = (W2, (R2, m)) ->
+  bcd_sweep_gen R_ops (RXe e) cc l1r pen nF t1 nz cols (map (fun c => sq c) cols) W M wmax dwmax = (W2, (R2, m)) ->
   Forall2 (fun c w => sq c <= e -> sq w = 0) cols W -> Forall2 (fun c w => sq c <= e -> sq w = 0) cols W2.
 Proof.
-  intros cols W M wmax dwmax W2 R2 m LW E. rewrite norms_R in E. revert W M wmax dwmax W2 R2 m LW E.
   induction cols as [|xj cols IH]; intros W M wmax dwmax W2 R2 m LW E HS.
   - destruct W; try discriminate. simpl in E. inversion E; subst. constructor.
   - destruct W as [|wj W]; try discriminate. inversion HS as [|? ? ? ? Sj HS']; subst.
     assert (LW' : length W = length cols) by (simpl in LW; lia).
-    cbn [map bcd_sweep] in E.
+    cbn [map bcd_sweep_gen] in E.
     destruct (abs_diff_eq R_ops (RXe e) (sq xj) (zero R_ops)) eqn:Sk.
-    + match type of E with context [bcd_sweep _ _ _ _ _ _ _ cols ?a ?b ?c ?d ?f] =>
-        destruct (bcd_sweep R_ops (RXe e) cc l1r pen nF t1 cols a b c d f) as [W2' [R2' m']] eqn:E' end.
+    + match type of E with context [bcd_sweep_gen _ _ _ _ _ _ _ _ cols ?a ?b ?c ?d ?f] =>
+        destruct (bcd_sweep_gen R_ops (RXe e) cc l1r pen nF t1 nz cols a b c d f) as [W2' [R2' m']] eqn:E' end.
       inversion E; subst. constructor; auto. eapply IH; eauto.
-    + match type of E with context [bcd_sweep _ _ _ _ _ _ _ cols ?a ?b ?c ?d ?f] =>
-        destruct (bcd_sweep R_ops (RXe e) cc l1r pen nF t1 cols a b c d f) as [W2' [R2' m']] eqn:E' end.
+    + match type of E with context [bcd_sweep_gen _ _ _ _ _ _ _ _ cols ?a ?b ?c ?d ?f] =>
+        destruct (bcd_sweep_gen R_ops (RXe e) cc l1r pen nF t1 nz cols a b c d f) as [W2' [R2' m']] eqn:E' end.
       inversion E; subst. constructor.
       * apply abs_diff_eq_false in Sk. simpl in Sk. pose proof (sq_nonneg xj). rewrite Rabs_right in Sk by lra.
         intros; lra.
       * eapply IH; eauto.
+Qed.
+Lemma bcd_sweep_keeps_skipped cc t1 l1r pen nF e cols W M wmax dwmax W2 R2 m :
+  length W = length cols ->
+  bcd_sweep R_ops (RXe e) cc l1r pen nF t1 cols (map (fun c => dot R_ops cc c c) cols) W M wmax dwmax = (W2, (R2, m)) ->
+  Forall2 (fun c w => sq c <= e -> sq w = 0) cols W -> Forall2 (fun c w => sq c <= e -> sq w = 0) cols W2.
+Proof.
+  intros LW E. rewrite norms_R in E. unfold bcd_sweep in E. eapply bcd_sweep_gen_keeps_skipped; eauto.
 Qed.
 
 (* ------------------------------------------------------------------------------------------- *)
@@ -968,12 +1040,12 @@ Example ex_bcd_fixed_point : exists R2 m,
   bcd_sweep R_ops (RXe 0) false 1 2 1 true [[1]] (map (fun c => dot R_ops false c c) [[1]]) [[0]]
     (mres [[1]] [[1]] [[0]]) 0 0 = ([[0]], (R2, m)).
 Proof.
-  rewrite norms_R. cbn [map bcd_sweep]. unfold vec.
+  rewrite norms_R. unfold bcd_sweep. cbn [map bcd_sweep_gen]. unfold vec.
   assert (S1 : sq [1] = 1) by (unfold sq; simpl; ring).
   replace (abs_diff_eq R_ops (RXe 0) (sq [1]) (zero R_ops)) with false
     by (symmetry; apply abs_diff_eq_false; rewrite S1, Rabs_right; lra).
   assert (HR : mshape 1 1 (mres [[1]] [[1]] [[0]])) by (apply mres_shape; repeat constructor).
-  rewrite (guarded_plus 0 1 1 _ [1] [0] (Rle_refl 0) ltac:(left; unfold sq; simpl; ring) HR eq_refl eq_refl).
+  rewrite (exact_plus 1 1 _ [1] [0] HR eq_refl eq_refl).
   set (R1 := radd (mres [[1]] [[1]] [[0]]) [1] [0]).
   assert (E1 : R1 = [[1]]).
   { unfold R1, radd, vopp, vadd, vscale. simpl. repeat f_equal. lra. }
@@ -987,29 +1059,28 @@ Proof.
     assert (N1 : norm [1] = 1) by (unfold norm; rewrite S1; apply sqrt_1).
     rewrite N1. destruct (Rle_dec 1 (1 * 1 * 2)); [|lra]. unfold vscale. simpl. f_equal. ring. }
   rewrite Ew.
-  rewrite (guarded_minus 0 1 1 [[1]] [1] [0] (Rle_refl 0) ltac:(left; unfold sq; simpl; ring)
-             ltac:(split; repeat constructor) eq_refl eq_refl).
-  cbn [bcd_sweep]. eexists. eexists. reflexivity.
+  rewrite (exact_minus 1 1 [[1]] [1] [0] ltac:(split; repeat constructor) eq_refl eq_refl).
+  cbn [bcd_sweep_gen]. eexists. eexists. reflexivity.
 Qed.
 Example ex_bcd_fixed_point_hyp :
   Forall2 (fun c w => length w = 1%nat /\ (sq c = 0 -> sq w = 0)) [[1]] [[0]] /\ mshape 1 1 [[1]].
 Proof. split; [|split; repeat constructor]. repeat constructor. intros _. unfold sq; simpl; ring. Qed.
 
 (* ------------------------------------------------------------------------------------------- *)
-(** * the literal tolerance 2^-52: the band matters for the block sweep as well (finding F52) *)
+(** * finding F52 about the block sweep before its repair: with the literal tolerance 2^-52 the band mattered *)
 
-(** one step of the block sweep when the norms of the old and of the new row are within the tolerance of zero:
-    the row is stored, the residual matrix is left as it was *)
+(** one step of the pre-repair block sweep when the norms of the old and of the new row are within the tolerance
+    of zero: the row is stored, the residual matrix is left as it was *)
 Lemma bsweep_cons_stale e cc t1 l1r pen nF n t xj cols norms wj W M wmax dwmax : 0 <= e ->
   e < sq xj -> norm wj <= e -> mshape n t M -> M <> [] -> length xj = n ->
   let wn := bcd_new_w (nF * l1r * pen) (nF * (1 - l1r) * pen) (sq xj) (xtr t xj M) in
   norm wn <= e ->
-  bcd_sweep R_ops (RXe e) cc l1r pen nF t1 (xj :: cols) (sq xj :: norms) (wj :: W) M wmax dwmax
-  = let '(W2, rest) := bcd_sweep R_ops (RXe e) cc l1r pen nF t1 cols norms W M
+  bcd_sweep_absdiff R_ops (RXe e) cc l1r pen nF t1 (xj :: cols) (sq xj :: norms) (wj :: W) M wmax dwmax
+  = let '(W2, rest) := bcd_sweep_absdiff R_ops (RXe e) cc l1r pen nF t1 cols norms W M
                          (Rmax wmax (norm wn)) (Rmax dwmax (Rabs (norm wn - norm wj)))
     in (wn :: W2, rest).
 Proof.
-  intros He Hn Hw HM NE Lx wn Hwn. cbn [bcd_sweep]. unfold vec.
+  intros He Hn Hw HM NE Lx wn Hwn. unfold bcd_sweep_absdiff. cbn [bcd_sweep_gen]. unfold vec.
   replace (abs_diff_eq R_ops (RXe e) (sq xj) (zero R_ops)) with false
     by (symmetry; apply abs_diff_eq_false; pose proof (sq_nonneg xj); rewrite Rabs_right; lra).
   unfold abs_diff_ne. rewrite (norm2_R wj).
@@ -1026,11 +1097,11 @@ Proof.
 Qed.
 
 (** three copies of the column (1), one task with target 2^-52, no penalty: every block update returns the row
-    (2^-52), whose norm `abs_diff_ne!(norm_w_j, 0)` treats as zero; the rows are stored, the residual matrix is
-    never updated, and the objective of the returned matrix is four times that of the starting point *)
+    (2^-52), whose norm `abs_diff_ne!(norm_w_j, 0)` treated as zero; the rows were stored, the residual matrix
+    was never updated, and the objective of the returned matrix is four times that of the starting point *)
 Lemma bcd_sweep_band_refuted :
   exists (cols Y W W2 R2 : list (list R)) (m : R * R),
-    bcd_sweep R_ops RX false 0 0 1 true cols (map (fun c => dot R_ops false c c) cols) W (mres cols Y W) 0 0 = (W2, (R2, m))
+    bcd_sweep_absdiff R_ops RX false 0 0 1 true cols (map (fun c => dot R_ops false c c) cols) W (mres cols Y W) 0 0 = (W2, (R2, m))
     /\ R2 <> mres cols Y W2
     /\ mobjective cols (trans 1 Y) 0 0 (trans 1 W) < mobjective cols (trans 1 Y) 0 0 (trans 1 W2).
 Proof.
@@ -1051,13 +1122,13 @@ Proof.
     unfold bcd_new_w. rewrite Ne. destruct (Rle_dec eps64 (1 * 0 * 0)); [lra|].
     rewrite S1. unfold vscale. simpl. f_equal. field. lra. }
   assert (St : forall cols norms W wmax dwmax,
-     bcd_sweep R_ops (RXe eps64) false 0 0 1 true ([1] :: cols) (sq [1] :: norms) ([0] :: W) [[eps64]] wmax dwmax
-     = let '(W2, rest) := bcd_sweep R_ops (RXe eps64) false 0 0 1 true cols norms W [[eps64]]
+     bcd_sweep_absdiff R_ops (RXe eps64) false 0 0 1 true ([1] :: cols) (sq [1] :: norms) ([0] :: W) [[eps64]] wmax dwmax
+     = let '(W2, rest) := bcd_sweep_absdiff R_ops (RXe eps64) false 0 0 1 true cols norms W [[eps64]]
                             (Rmax wmax (norm [eps64])) (Rmax dwmax (Rabs (norm [eps64] - norm [0])))
        in ([eps64] :: W2, rest)).
   { intros. rewrite (bsweep_cons_stale eps64 false true 0 0 1 1 1); rewrite ?Ew; auto; try lra; try discriminate.
     rewrite S1. unfold eps64. lra. }
-  rewrite !St. cbn [bcd_sweep]. eexists. split; [reflexivity|]. split.
+  rewrite !St. unfold bcd_sweep_absdiff. cbn [bcd_sweep_gen]. eexists. split; [reflexivity|]. split.
   - simpl. unfold radd, vopp, vadd, vscale. simpl. intros C. inversion C as [C1]. lra.
   - unfold mobjective. cbn [length trans map hd tl quad_tasks gpen]. unfold gpen1.
     unfold residual, vsub, vadd, vscale, sq. simpl. nra.
